@@ -208,16 +208,18 @@ type world struct {
 	nReq   int
 	closer []func()
 
-	httpLn   net.Listener          // kind http: a real http.Server in front of the HTTPReverseProxy
-	backends map[int]net.Listener  // kind http: the labelled backend of member m
-	stall    map[int]chan struct{} // kind http: members whose CreateConnFn waits for this channel
-	dialed   []int                 // kind http: members whose CreateConnFn has been called, in order
-	accepts  int32                 // connections returned by members' Accept (atomic)
-	inc      map[string]int        // per endpoint: how many times a group on it has lost its last member
-	manual   bool                  // members' Accept is called by the choreography, not by a loop
-	parked   []int                 // join threads parked at the after_lookup gate, in arrival order
-	obs      *Obs
-	progress func(tid int)
+	httpLn      net.Listener          // kind http: a real http.Server in front of the HTTPReverseProxy
+	backends    map[int]net.Listener  // kind http: the labelled backend of member m
+	stall       map[int]chan struct{} // kind http: members whose CreateConnFn waits for this channel
+	dialed      []int                 // kind http: members whose CreateConnFn has been called, in order
+	accepts     int32                 // connections returned by members' Accept (atomic)
+	inc         map[string]int        // per endpoint: how many times a group on it has lost its last member
+	client      *http.Client          // kind http: keep-alive client towards the reverse proxy
+	lastBackend int                   // kind http: join thread of the backend that answered the last request
+	manual      bool                  // members' Accept is called by the choreography, not by a loop
+	parked      []int                 // join threads parked at the after_lookup gate, in arrival order
+	obs         *Obs
+	progress    func(tid int)
 }
 
 func (w *world) took(tid int) {
@@ -314,7 +316,7 @@ func (w *world) routeCfg(r *Req, tid int) vhost.RouteConfig {
 		return vhost.RouteConfig{
 			Domain: dname(at(r.Par, 0)), Location: lname(at(r.Par, 1)), RouteByHTTPUser: sname("u", at(r.Par, 2)),
 			Username: sname("n", at(r.Par, 3)), Password: sname("p", at(r.Par, 4)),
-			CreateConnFn: w.memberDial(r.M),
+			CreateConnFn: w.memberDial(tid, r.M),
 		}
 	}
 	return vhost.RouteConfig{
@@ -324,19 +326,19 @@ func (w *world) routeCfg(r *Req, tid int) vhost.RouteConfig {
 }
 
 // the backend of http member m: answers every request on a connection (keep-alive) with its label
-func (w *world) backend(m int) (net.Listener, error) {
+func (w *world) backend(tid, m int) (net.Listener, error) {
 	w.mu.Lock()
 	defer w.mu.Unlock()
-	if l, ok := w.backends[m]; ok {
+	if l, ok := w.backends[tid]; ok {
 		return l, nil
 	}
 	l, err := net.Listen("tcp", addr1+":0")
 	if err != nil {
 		return nil, err
 	}
-	w.backends[m] = l
+	w.backends[tid] = l
 	w.closer = append(w.closer, func() { l.Close() })
-	body := fmt.Sprintf("M%d;", m)
+	body := fmt.Sprintf("M%d.%d;", m, tid) // member name and the join (thread) this backend belongs to
 	go func() {
 		for {
 			c, err := l.Accept()
@@ -367,12 +369,12 @@ func (w *world) backend(m int) (net.Listener, error) {
 }
 
 // CreateConnFn of http member m: a real connection to its backend; may be frozen by the choreography
-func (w *world) memberDial(m int) func(string) (net.Conn, error) {
+func (w *world) memberDial(tid, m int) func(string) (net.Conn, error) {
 	return func(string) (net.Conn, error) {
 		w.mu.Lock()
 		w.dialed = append(w.dialed, m)
 		st := w.stall[m]
-		l := w.backends[m]
+		l := w.backends[tid]
 		w.mu.Unlock()
 		if st != nil {
 			<-st
@@ -387,21 +389,29 @@ func (w *world) memberDial(m int) func(string) (net.Conn, error) {
 // one request through the real reverse proxy: GET, or CONNECT when connect is set.
 // returns the thread state and the label of the answering backend
 func (w *world) httpRequest(r *Req, connect bool, timeout time.Duration) (int, int) {
+	st, m, tid := w.httpRequest3(r, connect, timeout)
+	w.mu.Lock()
+	w.lastBackend = tid
+	w.mu.Unlock()
+	return st, m
+}
+
+func (w *world) httpRequest3(r *Req, connect bool, timeout time.Duration) (int, int, int) {
 	dom, loc, usr := dname(at(r.R, 0)), lname(at(r.R, 1)), sname("u", at(r.R, 2))
 	cfg := w.rp.GetRouteConfig(dom, loc, usr)
 	isGroup := cfg != nil && cfg.Location == loc && cfg.RouteByHTTPUser == usr && cfg.ChooseEndpointFn != nil
-	parse := func(body string) (int, int) {
-		var m int
-		if _, err := fmt.Sscanf(body, "M%d;", &m); err != nil {
-			return sCStranded, 0
+	parse := func(body string) (int, int, int) {
+		var m, tid int
+		if _, err := fmt.Sscanf(body, "M%d.%d;", &m, &tid); err != nil {
+			return sCStranded, 0, -1
 		}
-		return sCTo, m
+		return sCTo, m, tid
 	}
 	status, body := 0, ""
 	if connect {
 		c, err := net.DialTimeout("tcp", w.httpLn.Addr().String(), time.Second)
 		if err != nil {
-			return sCStranded, 0
+			return sCStranded, 0, -1
 		}
 		defer c.Close()
 		_ = c.SetDeadline(time.Now().Add(timeout))
@@ -410,13 +420,13 @@ func (w *world) httpRequest(r *Req, connect bool, timeout time.Duration) (int, i
 			head += "Authorization: Basic " + base64.StdEncoding.EncodeToString([]byte(usr+":")) + "\r\n"
 		}
 		if _, err := c.Write([]byte(head + "\r\n")); err != nil {
-			return sCStranded, 0
+			return sCStranded, 0, -1
 		}
 		resp, err := http.ReadResponse(bufio.NewReader(c), nil)
 		if err != nil {
-			return sCStranded, 0
+			return sCStranded, 0, -1
 		}
-		b := make([]byte, 16)
+		b := make([]byte, 32)
 		n, _ := resp.Body.Read(b)
 		status, body = resp.StatusCode, string(b[:n])
 	} else {
@@ -426,18 +436,25 @@ func (w *world) httpRequest(r *Req, connect bool, timeout time.Duration) (int, i
 		}
 		req, err := http.NewRequest("GET", "http://"+w.httpLn.Addr().String()+path, nil)
 		if err != nil {
-			return sCStranded, 0
+			return sCStranded, 0, -1
 		}
 		req.Host = dom
 		if usr != "" {
 			req.SetBasicAuth(usr, "")
 		}
-		cl := &http.Client{Timeout: timeout, Transport: &http.Transport{DisableKeepAlives: true}}
+		// one keep-alive client connection to the proxy is held across the requests of a case
+		w.mu.Lock()
+		if w.client == nil {
+			w.client = &http.Client{Transport: &http.Transport{MaxIdleConnsPerHost: 2}}
+		}
+		cl := *w.client
+		w.mu.Unlock()
+		cl.Timeout = timeout
 		resp, err := cl.Do(req)
 		if err != nil {
-			return sCStranded, 0
+			return sCStranded, 0, -1
 		}
-		b := make([]byte, 16)
+		b := make([]byte, 32)
 		n, _ := resp.Body.Read(b)
 		resp.Body.Close()
 		status, body = resp.StatusCode, string(b[:n])
@@ -446,11 +463,11 @@ func (w *world) httpRequest(r *Req, connect bool, timeout time.Duration) (int, i
 	case status == 200:
 		return parse(body)
 	case status == 404 && !isGroup:
-		return sCRefused, 0
+		return sCRefused, 0, -1
 	case status == 404:
-		return sCNoFunc, 0 // the route of a group is there, but nobody could be dialled
+		return sCNoFunc, 0, -1 // the route of a group is there, but nobody could be dialled
 	}
-	return sCStranded, 0
+	return sCStranded, 0, -1
 }
 
 func classify(err error) int {
@@ -491,7 +508,7 @@ func (w *world) doJoin(tid int, r *Req) joinRes {
 		}
 		return joinRes{real: real, ln: l}
 	case 1:
-		if _, err := w.backend(r.M); err != nil {
+		if _, err := w.backend(tid, r.M); err != nil {
 			return joinRes{code: 9}
 		}
 		err := w.httpc.Register(mname(r.M), gname(r.Group), kname(r.Key), w.routeCfg(r, tid))
@@ -1043,8 +1060,12 @@ func (w *world) judgeHTTP(t *thread, r *Req, o *Obs) {
 		}
 		return
 	}
+	w.mu.Lock()
+	bt := w.lastBackend
+	w.mu.Unlock()
 	for i, x := range w.th {
-		if x.st == sMember && w.c.Reqs[i].M == t.val && sameRes(x.res, r.R) {
+		// the backend that answered must be the one of the join that currently holds this member name
+		if x.st == sMember && w.c.Reqs[i].M == t.val && sameRes(x.res, r.R) && i == bt {
 			return
 		}
 	}
